@@ -296,6 +296,12 @@ func C05(c *vk.Ctx) {
 					}
 					c.Eval("single-byte corruption", 1)
 					c.DistinctN(1)
+					if region == "size-fields" {
+						// an altered size field that stays within the documented limits makes the reader
+						// allocate up to 2 x 128 MiB by design; hundreds of such cases in a row must not
+						// add up to the worker's address-space limit (the heap never shrinks its mappings)
+						runtime.GC()
+					}
 				}
 			}
 		}
@@ -369,6 +375,21 @@ func C05(c *vk.Ctx) {
 		var verified, returned []byte
 		w := wr(methods[1])
 		bad := false
+		// silent: bytes of a frame that follows an altered one were handed out although no Read
+		// has reported the altered frame yet (the rejection was swallowed)
+		silent := false
+		beforeBad, errSeen := -1, false
+		read := func(n int) {
+			buf := make([]byte, n)
+			k, err := r.Read(buf)
+			returned = append(returned, buf[:k]...)
+			if err != nil && err != io.EOF {
+				errSeen = true
+			}
+			if beforeBad >= 0 && len(returned) > beforeBad && !errSeen {
+				silent = true
+			}
+		}
 		for _, oi := range h {
 			o := ops[oi]
 			transitions++
@@ -389,15 +410,30 @@ func C05(c *vk.Ctx) {
 					f[16] ^= 0x80
 				}
 				gs.b = append(gs.b, f...)
+				if beforeBad < 0 {
+					beforeBad = len(verified)
+				}
 			case "read":
-				buf := make([]byte, o.arg)
-				n, _ := r.Read(buf)
-				returned = append(returned, buf[:n]...)
+				read(o.arg)
 			}
 			if !bytes.HasPrefix(verified, returned) {
 				bad = true
 			}
 			states[vk.Hash(verified, returned, len(gs.b)-gs.pos)] = true
+		}
+		// drain what is left: a swallowed rejection shows when the frames behind it are served
+		for i := 0; i < 6 && !errSeen; i++ {
+			before := len(returned)
+			read(64)
+			if len(returned) == before {
+				break
+			}
+		}
+		if !bytes.HasPrefix(verified, returned) {
+			bad = true
+		}
+		if silent {
+			c.Violation("C05/history/altered-frame-skipped-silently", id, fmt.Sprintf("ops %v (then drained): the reader handed out %s, which reaches past the altered frame, and no Read had reported an error", opNames05(h, ops), vk.Hex(returned)), nil)
 		}
 		if bad {
 			c.Violation("C05/history/unverified-bytes-handed-out", id, fmt.Sprintf("ops %v: reader returned %s, verified payloads so far %s", opNames05(h, ops), vk.Hex(returned), vk.Hex(verified)), nil)
